@@ -226,7 +226,7 @@ func checkMain(args []string) int {
 				expectedVacuous[strings.TrimSuffix(id, "\tvacuous")] = true
 				continue
 			}
-			if id != "" && !have[id] && !strings.Contains(id, "/cover@") {
+			if id != "" && !have[id] && stableID(id) {
 				all = append(all, item{ObReport{ID: id, Kind: "missing", Status: "undecided",
 					Desc: "registered obligation is no longer generated (the contract no longer binds to the code)"}, ""})
 			}
@@ -488,4 +488,23 @@ func runLean(verifDir, file string) map[string]interface{} {
 		res["output"] = tail(string(out), 800)
 	}
 	return res
+}
+
+// stableID: obligations whose identity comes from the contract (clauses,
+// invariants, call-site assertions, callee preconditions by clause, lemmas).
+// Implicit safety obligations are numbered by their ordinal among the
+// function's instructions, which unrelated edits shift; their absence is not
+// evidence that a contract stopped binding.
+func stableID(id string) bool {
+	k := strings.Index(id, "/")
+	if k < 0 {
+		return true // lemma
+	}
+	kind := id[k+1:]
+	for _, p := range []string{"nil@", "bounds@", "typeassert@", "nilmap@", "div@", "cover@", "panic@", "frame@", "pre@"} {
+		if strings.HasPrefix(kind, p) {
+			return false
+		}
+	}
+	return true
 }
